@@ -127,6 +127,7 @@ package websocket
 //@   ensures frag: ok && err == nil && isData(opcode) && !c.gClosed0 ==> c.expectingFragments == !fin           // prop C13
 //@   ensures ctl: ok && err == nil && isCtl(opcode) && !c.gClosed0 ==> c.expectingFragments == c.gExp0 && c.msgType == c.gType0 && c.message == c.gMsg0   // prop C13 C12
 //@   ensures deliver: err == nil && message != nil ==> ok && fin && isData(opcode)                              // prop C12 C13
+//@   ensures every: ok && err == nil && isData(opcode) && fin && c.messageHandler != nil && !c.gClosed0 ==> message != nil        // prop C12
 //@   ensures ctlmsg: isProtocolMessage ==> ok && isCtl(opcode)                                                  // prop C13
 //@   ensures own: err == nil ==> (message != nil ==> liveP[message]) && (frame != nil ==> liveP[frame]) && (protocolMessage != nil ==> liveP[protocolMessage])   // prop C11
 //@   ensures size: err == nil && message != nil && limit(c) > 0 ==> len(*message) <= limit(c)                  // prop C15
